@@ -228,7 +228,13 @@ def gen0(tier, rng, shard, nshards):
         k += 1
         return (k % nshards) == shard
 
+    PATTERNED = [b"0123456789abcdef", b"A" * 16, b"DEADBEEFCAFEBABE", b"0" * 16, bytes(16), b"\xff" * 16, b"deadbeef" * 2,
+                 b" " * 16, b"0123456789ABCDEF", b"\n" * 16, b"a" * 15 + b"\x00"]
+
     def key16():
+        # mostly random keys; now and then a key that "looks like" text / hex / padding (helpers that normalise keys)
+        if rng.random() < 0.12:
+            return rng.choice(PATTERNED)
         return C.rbytes(rng, 16)
 
     # ---- pad: every length 0..100, larger ones, other block sizes
